@@ -131,7 +131,7 @@ func init() {
 			if thorough {
 				return vexp.Bounds{P: 1, F: 1, E: 1}
 			}
-			return vexp.Bounds{P: 1, F: 1, E: 0}
+			return vexp.Bounds{P: 1, F: 0, E: 0}
 		},
 		Configs: func(thorough bool) []map[string]int {
 			var out []map[string]int
